@@ -537,63 +537,66 @@ func init() {
 		var engineRetention, engineTrunc int64
 		{
 			writes := []e1.Call{cInsertOne("d", "c", bD("k", int32(1))), cInsertMany("d", "c", false, bD("k", int32(2)), bD("k", int32(3))), cCreateIndex("d", "e", bD("q", int32(1)), idxOpt{}), cDelete("d", "c", true, bD())}
-			var rec func(path []int)
-			rec = func(path []int) {
-				if len(path) > 0 {
-					w := c09NewWorld(true)
-					for _, ci := range path {
-						prev := c09ReadOplog(w.Engine.Catalog())
-						stores := w.Store.Stores
-						writes[ci].Do(w)
-						cur := c09ReadOplog(w.Engine.Catalog())
-						seen := map[primitive.Timestamp]bool{}
-						for _, e := range prev {
-							seen[e.ts] = true
-						}
-						all := append([]c09Event{}, prev...)
-						for _, e := range cur {
-							if !seen[e.ts] {
-								all = append(all, e)
+			for _, lim := range [][2]int{{2, 1000}, {5, 2}, {1, 1}} {
+				minSize, maxSize := lim[0], lim[1]
+				var rec func(path []int)
+				rec = func(path []int) {
+					if len(path) > 0 {
+						w := c09NewWorldSized(minSize, maxSize)
+						for _, ci := range path {
+							prev := c09ReadOplog(w.Engine.Catalog())
+							stores := w.Store.Stores
+							writes[ci].Do(w)
+							cur := c09ReadOplog(w.Engine.Catalog())
+							seen := map[primitive.Timestamp]bool{}
+							for _, e := range prev {
+								seen[e.ts] = true
 							}
-						}
-						engineRetention++
-						want := all
-						if w.Store.Stores > stores { // the commit was dirty: retention ran
-							now := uint32(time.Now().Unix())
-							drop := 0
-							for idx, e := range all {
-								age := int64(now) - int64(e.ts.T)
-								willing := idx < len(all)-2 && age > 0
-								forced := idx < len(all)-1000 || age > 3600
-								if !(willing && forced) {
-									break
+							all := append([]c09Event{}, prev...)
+							for _, e := range cur {
+								if !seen[e.ts] {
+									all = append(all, e)
 								}
-								drop++
 							}
-							want = all[drop:]
-							if drop > 0 {
-								engineTrunc++
+							engineRetention++
+							want := all
+							if w.Store.Stores > stores { // the commit was dirty: retention ran
+								now := uint32(time.Now().Unix())
+								drop := 0
+								for idx, e := range all {
+									age := int64(now) - int64(e.ts.T)
+									willing := idx < len(all)-minSize && age > 0
+									forced := idx < len(all)-maxSize || age > 3600
+									if !(willing && forced) {
+										break
+									}
+									drop++
+								}
+								want = all[drop:]
+								if drop > 0 {
+									engineTrunc++
+								}
+							}
+							if len(cur) != len(want) || (len(cur) > 0 && cur[0].ts != want[0].ts) {
+								names := []string{}
+								for _, k := range path {
+									names = append(names, writes[k].Name)
+								}
+								r.Violation("engine-retention", fmt.Sprintf("MinOplogSize %d, MaxOplogSize %d: after %s the change log holds %d events, the retention rule leaves %d of the %d events (3 of them aged)", minSize, maxSize, strings.Join(names, " ; "), len(cur), len(want), len(all)), map[string]interface{}{"part": "engine-retention", "calls": names, "min_size": minSize, "max_size": maxSize})
+								break
 							}
 						}
-						if len(cur) != len(want) || (len(cur) > 0 && cur[0].ts != want[0].ts) {
-							names := []string{}
-							for _, k := range path {
-								names = append(names, writes[k].Name)
-							}
-							r.Violation("engine-retention", fmt.Sprintf("after %s the change log holds %d events, the retention rule leaves %d of the %d events (3 of them aged)", strings.Join(names, " ; "), len(cur), len(want), len(all)), map[string]interface{}{"part": "engine-retention", "calls": names})
-							break
-						}
+						w.Close()
 					}
-					w.Close()
+					if len(path) == 3 {
+						return
+					}
+					for k := range writes {
+						rec(append(append([]int{}, path...), k))
+					}
 				}
-				if len(path) == 3 {
-					return
-				}
-				for k := range writes {
-					rec(append(append([]int{}, path...), k))
-				}
+				rec(nil)
 			}
-			rec(nil)
 		}
 		r.Set("engine_retention_commits", engineRetention)
 		r.Set("engine_retention_truncating", engineTrunc)
